@@ -72,7 +72,9 @@ def run_cases_for(chk):
     if chk.tier == "thorough":
         pick = pick + ("F1-chain-321", "F3-multi-input-wu", "F8-dense-4", "F5-names-r-rr")
     fam = [x for x in gen.c01_structured() if x[0] in pick]
-    grid = [(1.0, 0.1, None), (1.0, 0.1, 0.2), (0.9, 0.1, 0.3), (1.0, 0.05, 0.25), (0.5, 0.1, 0.5), (1.0, 0.025, 0.125), (0.45, 0.00125, 0.00375)]
+    grid = [(1.0, 0.1, None), (1.0, 0.1, 0.2), (0.9, 0.1, 0.3), (1.0, 0.05, 0.25), (0.5, 0.1, 0.5), (1.0, 0.025, 0.125), (0.45, 0.00125, 0.00375),
+            # decimal pairs whose float quotient lies just below an integer (0.3/0.1, 0.7/0.1, 0.6/0.2): counts are round(.), never floor(.)
+            (0.3, 0.1, None), (0.7, 0.1, None), (0.6, 0.1, 0.2)]
     if chk.tier == "thorough":
         grid += [(2.0, 0.01, 0.05), (1.2, 0.1, 0.1), (1.5, 0.05, 0.15), (0.3, 0.1, 0.1), (0.1, 0.1, None)]
     cuts = [0.0, 0.25] if chk.tier == "quick" else [0.0, 0.25, 0.5, 0.07]
@@ -81,6 +83,8 @@ def run_cases_for(chk):
         for solver in ("euler", "heun"):
             for (T, dt, dts) in grid:
                 for cutoff in cuts:
+                    if cutoff and cutoff > T / 2:
+                        continue          # keep at least half of the rows
                     for vec in ((False,) if chk.tier == "quick" and cutoff else (False, True)):
                         cases.append(dict(tag=f"{t}/{solver}/{T}/{dt}/{dts}/{cutoff}", features=dict(f, solver=solver, T=T, dt=dt, dts=dts, cutoff=cutoff),
                                           model=m, solver=solver, T=T, dt=dt, dts=dts, vec=vec, cutoff=cutoff))
